@@ -67,7 +67,12 @@ let run (cases : case list) =
          end;
          if !oracle_live then begin
            if impl = "PANIC" then fail i "panic" op impl
-           else if impl = "HANDSHAKE-TIMEOUT" then fail i "7" op impl
+           else if impl = "HANDSHAKE-TIMEOUT" then begin
+             (* 7: only a violation if the server delivered a complete head or closed (otherwise the client is right to wait) *)
+             let crlf2 = zl_of_string "\r\n\r\n" in
+             let rec has l = List.length l >= 4 && (take 4 l = crlf2 || has (List.tl l)) in
+             if has out || !closed then fail i "7" op impl else oracle_live := false
+           end
            else begin
              (* 1: the request is well-formed, the key fresh *)
              if kv_def t "req" "" <> "ok" || kv_def t "fresh" "" <> "1" then fail i "1" op impl
